@@ -87,51 +87,19 @@ def runM (cpu : Int) (flags : List Bool) : List MCall → List Bool × List Outc
     let (f2, os) := runM cpu f1 cs
     (f2, o :: os)
 
-theorem set_getD_self (flags : List Bool) (i : Nat) : flags.set i (flags.getD i false) = flags := by
-  apply List.ext_getElem?
-  intro j
-  by_cases hi : i = j
-  · subst hi
-    by_cases hlt : i < flags.length
-    · simp [List.getD_eq_getElem?_getD, hlt]
-    · have hle : flags.length ≤ i := Nat.le_of_not_lt hlt
-      simp [hle]
-  · simp [List.getElem?_set_ne hi]
+/-- every call of a mixed history leaves the flag it was given as it found it -/
+theorem runMCall_flag (cpu : Int) (c : MCall) (flag : Bool) : (runMCall cpu c flag).flagAfter = flag := by
+  cases c with
+  | join c => exact runCall_flag cpu c flag
+  | readOnly i f => rfl
 
-theorem runM_of_flag_preserved (cpu : Int) (flags : List Bool) (calls : List MCall)
-    (hfl : ∀ c ∈ calls, (runMCall cpu c (flags.getD c.tokId false)).flagAfter = flags.getD c.tokId false) :
+/-- HISTORY INDEPENDENCE for mixed histories, unconditionally: every call's outcome equals its outcome in
+    isolation, and the flags end as they began -/
+theorem runM_independent (cpu : Int) (flags : List Bool) (calls : List MCall) :
     runM cpu flags calls = (flags, calls.map (fun c => runMCall cpu c (flags.getD c.tokId false))) := by
   induction calls with
   | nil => rfl
-  | cons c cs ih =>
-    have hc := hfl c List.mem_cons_self
-    have hset : flags.set c.tokId (runMCall cpu c (flags.getD c.tokId false)).flagAfter = flags := by
-      rw [hc]; exact set_getD_self flags c.tokId
-    simp only [runM, stepM, hset, List.map_cons]
-    rw [ih (fun c' hc' => hfl c' (List.mem_cons_of_mem _ hc'))]
-
-/-- a join of a mixed history "behaves": it returns normally, or is an overlap join, or is rejected up front -/
-def MCall.Behaves (cpu : Int) (flags : List Bool) : MCall → Prop
-  | .join c =>
-      (∃ fr, (runCall cpu c (flags.getD c.tokId false)).result = .ok fr) ∨ c.which = "overlap" ∨
-      (∃ e, Rejected c (flags.getD c.tokId false) e)
-  | .readOnly _ _ => True
-
-/-- HISTORY INDEPENDENCE for mixed histories: every call's outcome equals its outcome in isolation, and the flags
-    end as they began; read-only calls need no hypothesis at all -/
-theorem runM_independent (cpu : Int) (flags : List Bool) (calls : List MCall)
-    (hok : ∀ c ∈ calls, c.Behaves cpu flags) :
-    runM cpu flags calls = (flags, calls.map (fun c => runMCall cpu c (flags.getD c.tokId false))) := by
-  apply runM_of_flag_preserved
-  intro c hc
-  have h := hok c hc
-  cases c with
-  | readOnly i f => rfl
-  | join c =>
-    rcases h with ⟨fr, hfr⟩ | hov | ⟨e, he⟩
-    · exact runCall_flag_of_ok _ _ _ _ hfr
-    · exact runCall_overlap_flag _ _ _ hov
-    · exact (runCall_rejected _ _ _ _ he).2
+  | cons c cs ih => simp only [runM, stepM, runMCall_flag, set_getD_self, ih, List.map_cons]
 
 end Session
 
